@@ -19,6 +19,7 @@ import numpy as np
 
 from vf import core
 from vf.gen import c18_spellings as SPL
+from vf.gen import c18_datadep as DD
 from .common import chunks
 
 RULE = ("one evaluation = one snapshot comparison of one operand around one depth-0 call: (a) an input of any call is "
@@ -32,7 +33,9 @@ RULE = ("one evaluation = one snapshot comparison of one operand around one dept
         "memory layout: (rescaled-operand, op id, position, dtype, layout, outcome); for the operand (array or Unit object) swept by the spelled-operand group "
         "(unit written in a non-reduced compound spelling) it is replaced by spelling family, the route by which the operand got the unit and the kind of the "
         "other operand: (spelled-operand, op id, position, family, route, partner kind, outcome); a target that is not writeable is recorded as "
-        "(read-only-target, op id, exception, operand class, layout)")
+        "(read-only-target, op id, exception, operand class, layout); the target of an in-place call (input of a copying call) of the data-dependent-fault group is "
+        "recorded as (data-class-target, op id, in-place family, data class, floating-point policy, outcome, exception class or kind of agreement with the copying "
+        "twin) resp. (data-class-input, op id, position, family, data class, policy, outcome)")
 ASSUMPTIONS = (
     "snapshots are taken with ndarray.tobytes()/sympy structural equality on the operands; NumPy and sympy are trusted",
     "the 'corresponding copying call' is the documented twin (convert_to_units->in_units, convert_to_base->in_base, convert_to_cgs->in_cgs, "
@@ -86,6 +89,16 @@ ASSUMPTIONS = (
     "out= of ufuncs and their methods, ufunc.at, array functions with out= or a destination, item assignment) is driven with one and judged by clause (b); their "
     "failed-target keys carry ':read-only-target:<dtype family of the target>' and use one template per ufunc arity and method instead of one per ufunc, because what "
     "happens to such a target is decided before the ufunc loop runs",
+    "data-dependent faults: an in-place call may fail because of the numbers its target or another operand holds. Every in-place family (convert_to_* without and with "
+    "equivalence through every door, augmented assignment, out= of ufuncs and of their methods, ufunc.at, array functions with out= or a destination, item assignment, "
+    "in-place ndarray methods) and the copying doors are driven with every data class of vf/gen/c18_datadep.py (far below / just below / at / just above / far above each "
+    "domain edge of the formula - speed of light for velocities, 1 for Lorentz factors, absolute zero for temperature readings, 0 and +-1 otherwise - and the mirror "
+    "image, zero, -0.0, negative, mixed sign, smallest normal, near-largest and largest finite, +-inf, NaN; special elements first / last / in the middle / everywhere) "
+    "over dtypes and layouts. Whether such a call raises at all is not C18's subject: if it raises, clause (b) is judged on the pre-call snapshot of the target, if it "
+    "returns, clause (c) against the copying twin on the same data (NaN == NaN)",
+    "floating-point policy: the same calls are repeated under the caller's strict policy (np.errstate(all='raise') and RuntimeWarning raised as an error), under which "
+    "NumPy raises FloatingPointError *after* having run the loop. A failed ufunc / array function / item assignment whose exception and write are reproduced by NumPy "
+    "alone on stripped copies under the same policy is NumPy's behaviour (note); a convert_to_* call that raises this way after its first in-place steps breaks clause (b)",
     "keys: failed-target keys carry what changed (data/unit) and the exception class, input-mutated keys the operand position and dtype family, "
     "differs-from-copying keys 'rounding' (<= 64 ulp or next to the subnormal range) vs 'value' and the dtype family of the target",
 )
@@ -93,7 +106,8 @@ MIN_EVALS = 20000
 TIMEOUT = 1500
 
 FAULTS = ("dimension-mismatch", "unknown-unit", "irreducible-unit", "invalid-equivalence", "equivalence-not-covering",
-          "non-dimensionless-exponent", "int8-buffer", "int-out-buffer", "offset-unit", "junk-operand", "list-mismatch", "read-only-target")
+          "non-dimensionless-exponent", "int8-buffer", "int-out-buffer", "offset-unit", "junk-operand", "list-mismatch", "read-only-target",
+          "out-of-domain-data")
 
 KINDS = {"quick": ["own", "step", "T", "scalar", "elem", "col"],
          "thorough": ["own", "step", "rev", "T", "col", "scalar", "elem", "size1", "empty", "2d"]}
@@ -593,6 +607,36 @@ def ro_items():
     return items
 
 
+# ---------------------------------------------------------------------------------------------- data-dependent faults
+# Every in-place call family with DATA from every class of vf/gen/c18_datadep.py (magnitudes below / at / above each domain edge of the
+# formula the call evaluates, zero, -0.0, negative, tiny, huge, largest finite, +-inf, NaN; special elements placed first / last / in the
+# middle / everywhere), under the default and under the caller's strict floating-point policy.  Such a call fails - if it fails - only
+# after its first in-place steps; clause (b) then needs the pre-call snapshot of the target, clause (c) the copying twin on the same data.
+DD_CONV_DOORS = ["convert_to_units", "convert_to_units-Unit", "convert_to_base", "convert_to_cgs", "convert_to_mks", "convert_to_base-system"]
+DD_EQUIV_DOORS = ["convert_to_equivalent", "convert_to_units-positional", "convert_to_units-keyword", "convert_to_base", "convert_to_cgs", "convert_to_mks"]
+DD_COPY_DOORS = ["to_equivalent", "to", "in_units", "to_value"]
+DD_UF1_FORMS = ["out-self", "out-fresh", "out-view"]
+DD_UF2_FORMS = ["iop", "out-in0", "out-in1", "out-fresh", "at", "reduce-out", "accumulate-out-self", "outer-out"]
+DD_SETITEM_VALUES = ["bare", "np-scalar", "same", "commens", "array-commens", "list", "dimless", "bare-array"]
+DD_METHODS = {"fill": lambda a, v: a.fill(v), "put": lambda a, v: a.put([0, 1], v), "sort": lambda a, v: a.sort(), "partition": lambda a, v: a.partition(1),
+              "clip-out": lambda a, v: a.clip(v, None, out=a), "round-out": lambda a, v: a.round(1, out=a), "itemset-like": lambda a, v: a.__setitem__(0, v),
+              "clip-out-bare": lambda a, v: a.clip(getattr(v, "d", v), None, out=a)}
+
+
+def datadep_items():
+    items = []
+    for eq in sorted(DD.EQUIVS):
+        for i, (a, b) in enumerate(DD.EQUIVS[eq][1]):
+            items += [["equiv", eq, [a, b]], ["equiv", eq, [b, a]]]
+    items += [["conv", i, ""] for i in range(len(CONV_CASES))]
+    items += [["uf1", uf, ""] for uf in ufuncs(1) if getattr(np, uf).signature is None]
+    items += [["uf2", uf, ""] for uf in ufuncs(2)]
+    items += [["fn", n, ""] for n in sorted(RO_FUNCS)]
+    items += [["setitem", vk, ""] for vk in DD_SETITEM_VALUES]
+    items += [["method", n, ""] for n in sorted(DD_METHODS)]
+    return items
+
+
 # ---------------------------------------------------------------------------------------------- batches
 def _plan(tier):
     return {"draws": 1 if tier == "quick" else 10, "nb": 8 if tier == "quick" else 32}
@@ -638,6 +682,11 @@ def batches(tier, seed):
     nrb = 6 if tier == "quick" else 16
     for i in range(nrb):
         out.append((f"rotarget/{i}", {"g": "rotarget", "items": ritems[i::nrb], "seed": seed, "tier": tier}))
+    DD.selfcheck()
+    ditems = datadep_items()
+    ndb = 8 if tier == "quick" else 32
+    for i in range(ndb):
+        out.append((f"datadep/{i}", {"g": "datadep", "items": ditems[i::ndb], "seed": seed, "tier": tier}))
     out.append(("setitem", {"g": "setitem", "items": [], "seed": seed, "tier": tier}))
     out.append(("unitop", {"g": "unitop", "items": [], "seed": seed, "tier": tier}))
     out.append(("methods", {"g": "methods", "items": [], "seed": seed, "tier": tier}))
@@ -735,6 +784,14 @@ def run_suite(rec):
     od["counters"] = {"suite:" + k: v for k, v in od.get("counters", {}).items()}
     merge_dump(od, rec)
     rec.sample({"batch": "pytest-suite", "tests": len(d["outcomes"]), "tap_calls": sum(d["tap_calls"].values())})
+
+
+class _CaseTimeout(BaseException):
+    """a single data-dependent case ran into its time limit (never a verdict: counted, the case is dropped)"""
+
+
+def _on_alarm(signum, frame):
+    raise _CaseTimeout()
 
 
 class Driver:
@@ -1197,6 +1254,250 @@ class Driver:
                         def f(t=t, ix=ix, v=v):
                             t[ix] = v
                         self._ro_case("item-assignment", ["rotarget", "setitem", name, iname, aunit, lay, dt], f, t, lay)
+
+    # ------------------------------------------------------------------ data-dependent faults of every in-place call family
+    def _dd_case(self, family, label, fn, target, dclass, pol, manual_op=None, inputs=(), twin=None, copying=False):
+        """one call whose DATA are the swept dimension; target: the in-place target (copying=True: the input) declared to the observer"""
+        obs = self.obs
+        obs.datadep = (target, family, dclass, None, pol)
+        obs.strict = pol == "strict"
+
+        def body():
+            with DD.policy(pol):
+                fn()
+        import signal
+        try:
+            man = None
+            if manual_op:
+                man = obs.manual(manual_op, inputs=list(inputs), targets=[] if copying else [("self", target)], twin=twin)
+            # extreme magnitudes may keep the unit arithmetic busy for very long (a huge integer exponent applied to a unit): a per-case time
+            # limit drops such a case instead of losing the whole batch to the watchdog
+            signal.setitimer(signal.ITIMER_REAL, 60.0)
+            try:
+                outcome = self.run(label, "out-of-domain-data" if dclass != "ordinary" else None, body, manual=man)
+            finally:
+                signal.setitimer(signal.ITIMER_REAL, 0.0)
+        except _CaseTimeout:
+            obs.busy = False
+            self.rec.count("datadep:case-time-limit")
+            self.rec.note("datadep-case-dropped-at-time-limit:" + "/".join(str(x) for x in label[1:3]))
+            return "time-limit"
+        finally:
+            obs.datadep = None
+            obs.strict = False
+        oc = "returned" if outcome == "returned" else "raised"
+        self.rec.count(f"datadep:{family}:{oc}")
+        self.rec.count(f"datadep:policy:{pol}:{oc}")
+        self.rec.count(f"datadep:class:{dclass}")
+        self.rec.count("datadep:calls")
+        return outcome
+
+    def g_datadep(self, items):
+        import signal
+        signal.signal(signal.SIGALRM, _on_alarm)
+        unyt, r, tier = self.unyt, self.r, self.tier
+        dts, lays = DD.DTYPES[tier], DD.LAYOUTS[tier]
+        nrep = 1            # both tiers: one pass over item x data class; the thorough tier widens doors / forms, dtypes and layouts (about 2-3x quick)
+
+        def sub(pool, k):
+            """k of the pool (2k in the thorough tier), order drawn"""
+            pool = list(pool)
+            r.shuffle(pool)
+            return pool[:2 * k] if tier == "thorough" else pool[:k]
+
+        def target(unit, dclass, edges, dt=None, lay=None, shape=None):
+            """-> (operand, holder, dtype, layout, placement) with data of the class, or None when the class cannot be written in the dtype"""
+            dt = dt or r.choice(dts)
+            if not DD.available(dclass, dt):
+                dt = r.choice([d for d in dts if DD.available(dclass, d)])
+            lay = lay or r.choice(lays)
+            pl = r.choice(DD.PLACEMENTS)
+            x, hold = DD.operand(unyt, lambda n: DD.values(r, n, dt, dclass, pl, edges), unit, dt, lay)
+            return x, hold, dt, lay, pl
+
+        def pols(family):
+            return ["default"] * 1 + (["strict"] if family in DD.STRICT_FAMILIES else [])
+
+        for kind, name, arg in items:
+            for rep_ in range(nrep):
+                for dclass in DD.DCLASSES:
+                    if kind == "equiv":
+                        eq = name
+                        src, dst = arg
+                        edges = DD.equiv_edges(eq, src)
+                        kw = r.choice(DD.EQUIVS[eq][0])
+                        for pol in pols("convert-equivalence"):
+                            for door in sub(DD_EQUIV_DOORS, 3 if pol == "default" else 1):
+                                t, hold, dt, lay, pl = target(src, dclass, edges)
+                                call = {"convert_to_equivalent": lambda: t.convert_to_equivalent(dst, eq, **kw),
+                                        "convert_to_units-positional": lambda: t.convert_to_units(dst, eq, **kw),
+                                        "convert_to_units-keyword": lambda: t.convert_to_units(dst, equivalence=eq, **kw),
+                                        "convert_to_base": lambda: t.convert_to_base(equivalence=eq, **kw),
+                                        "convert_to_cgs": lambda: t.convert_to_cgs(equivalence=eq, **kw),
+                                        "convert_to_mks": lambda: t.convert_to_mks(equivalence=eq, **kw)}[door]
+                                self._dd_case("convert-equivalence", ["datadep", "equiv", eq, src, dst, door, dclass, pl, dt, lay, pol], call, t, dclass, pol)
+                            # the copying doors on the same class of data: the input must stay as it was, whether they return or raise
+                            for door in sub(DD_COPY_DOORS, 1):
+                                t, hold, dt, lay, pl = target(src, dclass, edges)
+                                call = (lambda: t.to_equivalent(dst, eq, **kw)) if door == "to_equivalent" else (lambda: getattr(t, door)(dst, eq, **kw))
+                                self._dd_case("convert-equivalence", ["datadep", "equiv-copying", eq, src, dst, door, dclass, pl, dt, lay, pol], call, t, dclass, pol, copying=True)
+                    elif kind == "conv":
+                        src, targets = CONV_CASES[name]
+                        edges = DD.conv_edges(src)
+                        for pol in pols("convert"):
+                            for door in sub(DD_CONV_DOORS, 3 if pol == "default" else 1):
+                                t, hold, dt, lay, pl = target(src, dclass, edges)
+                                tu = r.choice(targets)
+                                call = {"convert_to_units": lambda: t.convert_to_units(tu), "convert_to_units-Unit": lambda: t.convert_to_units(unyt.Unit(tu)),
+                                        "convert_to_base": lambda: t.convert_to_base(), "convert_to_cgs": lambda: t.convert_to_cgs(), "convert_to_mks": lambda: t.convert_to_mks(),
+                                        "convert_to_base-system": lambda: t.convert_to_base(r.choice(["cgs", "imperial", "galactic", "mks"]))}[door]
+                                self._dd_case("convert", ["datadep", "conv", src, tu, door, dclass, pl, dt, lay, pol], call, t, dclass, pol)
+                            t, hold, dt, lay, pl = target(src, dclass, edges)
+                            tu = r.choice(targets)
+                            door = r.choice(["to", "in_units", "to_value", "in_base", "in_cgs"])
+                            self._dd_case("convert", ["datadep", "conv-copying", src, tu, door, dclass, pl, dt, lay, pol],
+                                          (lambda: getattr(t, door)(tu)) if door in ("to", "in_units", "to_value") else (lambda: getattr(t, door)()), t, dclass, pol, copying=True)
+                    elif kind == "uf1":
+                        uf = getattr(np, name)
+                        for pol in pols("ufunc-out"):
+                            for form in sub(DD_UF1_FORMS, 2 if pol == "default" else 1):
+                                unit = r.choice(["dimensionless", "dimensionless", "km", "rad", "K"])
+                                if form == "out-self":
+                                    t, hold, dt, lay, pl = target(unit, dclass, DD.UFUNC_EDGES)
+                                    self._dd_case("ufunc-out", ["datadep", name, form, unit, dclass, pl, dt, lay, pol], lambda: uf(t, out=t if uf.nout == 1 else (t, None)), t, dclass, pol)
+                                else:
+                                    a, ha, dt, lay, pl = target(unit, dclass, DD.UFUNC_EDGES)
+                                    fdt = dt if np.dtype(dt).kind in "fc" else "f8"
+                                    t, hold = out_buffer(unyt, r, form, a.shape, unyt.unyt_array(np.zeros(1, dtype=fdt), "kg"))
+                                    self._dd_case("ufunc-out", ["datadep", name, form, unit, dclass, pl, dt, lay, pol], lambda: uf(a, out=t if uf.nout == 1 else (t, None)), t, dclass, pol)
+                    elif kind == "uf2":
+                        uf = getattr(np, name)
+                        forms = [f for f in DD_UF2_FORMS if not (f == "iop" and (name not in OPS or OPS[name][1] is None))]
+                        if uf.signature is not None:
+                            # out= aliasing an input only where the result has the input's shape (matmul of square matrices)
+                            forms = [f for f in forms if f in ("iop", "out-in0", "out-fresh")] if np.shape(uf(np.ones((2, 2)), np.ones((2, 2)))) == (2, 2) else ["out-fresh"]
+                        if uf.nout != 1:
+                            forms = [f for f in forms if f in ("out-in0", "out-fresh")]
+                        for pol in pols("ufunc-out"):
+                            for form in sub(forms, 3 if pol == "default" else 1):
+                                # (strict policy: units without a numeric coefficient - the library's own rescaling of a finished result by the
+                                # coefficient is one more step that can overflow, for every ufunc and function alike; seen and filed once for np.mean)
+                                aunit = r.choice(["km", "dimensionless", "K", "km", "3*km"] if pol == "default" else ["km", "dimensionless", "K"])
+                                comm = UNITS[aunit][0]
+                                carrier = r.choice(["in0", "in1", "both"])
+                                ca, cb = (dclass if carrier in ("in0", "both") else "ordinary"), (dclass if carrier in ("in1", "both") else "ordinary")
+                                if name in ("power", "float_power") and cb not in ("ordinary", "zero", "negative", "mixed-sign", "at-edge", "just-above-edge", "just-below-edge"):
+                                    # the exponent is applied to the unit as well: km ** 2**61 keeps the unit arithmetic busy for hours (not C18's subject)
+                                    ca, cb, carrier = dclass, "ordinary", "in0"
+                                lay = "T" if uf.signature is not None else None
+                                if form in ("reduce-out", "accumulate-out-self") and r.random() < 0.5:
+                                    lay = "T"
+                                a, ha, dt, lay, pl = target(aunit, ca, DD.UFUNC_EDGES, lay=lay)
+                                # (strict policy: no second operand in another scale of the same dimension either - km / m leaves a factor 1000 that the
+                                # library applies to the finished result as one more in-place step; seen and filed once for np.divide)
+                                bk = r.choice(["same", "commens", "bare-scalar", "dimless", "bare-array"] if pol == "default" else ["same", "bare-scalar", "dimless", "bare-array"])
+                                bdt = r.choice([d for d in dts if DD.available(cb, d)])
+                                bv = DD.values(r, max(1, a.size), bdt, cb, r.choice(DD.PLACEMENTS), DD.UFUNC_EDGES)
+                                if bk == "bare-scalar" or a.ndim == 0:
+                                    b = bv[0].item() if bk in ("bare-scalar", "bare-array") else unyt.unyt_quantity(bv[0], {"same": aunit, "commens": comm, "dimless": "dimensionless"}.get(bk, aunit))
+                                elif bk == "bare-array":
+                                    b = bv.reshape(a.shape)
+                                else:
+                                    b = unyt.unyt_array(bv.reshape(a.shape), {"same": aunit, "commens": comm, "dimless": "dimensionless"}[bk])
+                                label = ["datadep", name, form, aunit, bk, carrier, dclass, pl, dt, lay, pol]
+                                fdt = dt if np.dtype(dt).kind in "fc" else "f8"
+                                like_a = unyt.unyt_array(np.zeros(1, dtype=fdt), "kg")
+                                if form == "iop":
+                                    def f(a=a, b=b):
+                                        OPS[name][1](a, b)
+                                    self._dd_case("augmented-assignment", label, f, a, dclass, pol)
+                                elif form == "out-in0":
+                                    self._dd_case("ufunc-out", label, lambda: uf(a, b, out=a if uf.nout == 1 else (a, None)), a, dclass, pol)
+                                elif form == "out-in1":
+                                    if isinstance(b, np.ndarray) and b.shape == a.shape and b.ndim:
+                                        self._dd_case("ufunc-out", label, lambda: uf(a, b, out=b), b, dclass, pol)
+                                elif form == "out-fresh":
+                                    try:
+                                        shape = np.shape(uf(np.ones(np.shape(a)), np.ones(np.shape(b))))
+                                        if uf.nout > 1:
+                                            shape = np.shape(a)
+                                    except Exception:
+                                        shape = np.shape(a)
+                                    t, hold = out_buffer(unyt, r, r.choice(["out-fresh", "out-view"]), tuple(shape), like_a)
+                                    self._dd_case("ufunc-out", label, lambda: uf(a, b, out=t if uf.nout == 1 else (t, None)), t, dclass, pol)
+                                elif form == "at":
+                                    if a.ndim == 1 and pol == "default":
+                                        bs = b if np.ndim(b) == 0 else b[0]
+                                        self._dd_case("ufunc-at", label, lambda: uf.at(a, [0, a.size - 1], bs), a, dclass, pol)
+                                elif form == "reduce-out":
+                                    if a.ndim == 2:
+                                        t, hold = out_buffer(unyt, r, "out-fresh", (2,), like_a)
+                                        self._dd_case("ufunc-method-out", label, lambda: uf.reduce(a, axis=0, out=t), t, dclass, pol)
+                                    elif a.ndim == 1:
+                                        t, hold = out_buffer(unyt, r, "out-fresh", (), like_a)
+                                        self._dd_case("ufunc-method-out", label, lambda: uf.reduce(a, out=t), t, dclass, pol)
+                                elif form == "accumulate-out-self":
+                                    if a.ndim:
+                                        self._dd_case("ufunc-method-out", label, lambda: uf.accumulate(a, out=a), a, dclass, pol)
+                                elif form == "outer-out":
+                                    if a.ndim == 1 and isinstance(b, np.ndarray) and b.ndim == 1:
+                                        t, hold = out_buffer(unyt, r, "out-fresh", (a.size, b.size), like_a)
+                                        self._dd_case("ufunc-method-out", label, lambda: uf.outer(a, b, out=t), t, dclass, pol)
+                    elif kind == "fn":
+                        f0 = RO_FUNCS[name]
+                        need = RO_NEEDS.get(name)
+                        inplace_data = name in ("method-sort", "nan_to_num-inplace")
+                        for pol in pols("function-out") if name not in RO_MANUAL else ["default"]:
+                            aunit = r.choice(["km", "K", "3*km", "dimensionless"] if pol == "default" else ["km", "K", "dimensionless"])
+                            dt = r.choice([d for d in dts if DD.available(dclass, d)])
+                            pl = r.choice(DD.PLACEMENTS)
+                            e = {"a": unyt.unyt_array(DD.values(r, 4, dt, dclass, pl, DD.UFUNC_EDGES), aunit),
+                                 "A": unyt.unyt_array(DD.values(r, 4, dt, dclass, pl, DD.UFUNC_EDGES).reshape(2, 2), aunit),
+                                 "q": unyt.unyt_quantity(DD.values(r, 1, dt, dclass, "all", DD.UFUNC_EDGES)[0], r.choice([aunit, UNITS[aunit][0]]))}
+                            shape = (2,) if need == "row" else (2, 2) if need == "2d" else (4,)
+                            own_unit = name in ("copyto", "copyto-bare", "put", "place", "putmask", "fill_diagonal", "method-fill", "method-sort", "nan_to_num-inplace")
+                            tdt = r.choice([d for d in dts if DD.available(dclass, d)]) if inplace_data else r.choice(["f8", "f8", "f4", "i8", "i4"])
+                            tcls = dclass if (inplace_data or r.random() < 0.3) and DD.available(dclass, tdt) else "ordinary"
+                            tv = DD.values(r, int(np.prod(shape)), tdt, tcls, r.choice(DD.PLACEMENTS), DD.UFUNC_EDGES).reshape(shape)
+                            if r.random() < 0.5 and len(shape) == 1:
+                                base = unyt.unyt_array(np.arange(1, 2 * shape[0] + 2).astype(tdt), aunit if own_unit else "kg")
+                                t = base[1::2][:shape[0]]
+                                t.d[...] = tv
+                            else:
+                                t = unyt.unyt_array(tv, aunit if own_unit else "kg")
+                            self._dd_case("function-out", ["datadep", "function", name, aunit, dclass, tcls, pl, dt, tdt, pol], lambda: f0(e, t), t, dclass, pol,
+                                          manual_op=("method/" + name) if name in RO_MANUAL else None, inputs=[("a", e["a"]), ("q", e["q"])])
+                    elif kind == "setitem":
+                        for pol in pols("item-assignment"):
+                            for tdt in sub(["f8", "f4", "i8", "i4", "i1", "u1"], 2 if pol == "default" else 1):
+                                aunit = r.choice(["km", "K", "degC", "dimensionless", "J", "3*km"] if pol == "default" else ["km", "K", "degC", "dimensionless", "J"])
+                                comm = UNITS[aunit][0]
+                                lay = r.choice(["own", "step", "col"])
+                                t, hold = DD.operand(unyt, lambda n: DD.values(r, n, tdt, "ordinary", "all", [0.0]), aunit, tdt, lay)
+                                vdt = r.choice([d for d in ("f8", "f8", "f4", "i8") if DD.available(dclass, d)])
+                                vv = DD.values(r, 2, vdt, dclass, r.choice(["all", "first", "last"]), DD.conv_edges(aunit))
+                                v = {"bare": vv[0].item(), "np-scalar": vv[0], "same": unyt.unyt_quantity(vv[0], aunit), "commens": unyt.unyt_quantity(vv[0], comm),
+                                     "array-commens": unyt.unyt_array(vv, comm), "list": vv.tolist(), "dimless": unyt.unyt_quantity(vv[0], "dimensionless"), "bare-array": vv}[name]
+                                iname, ix = r.choice([("int", 0), ("slice", slice(0, 2)), ("all", Ellipsis), ("mask", np.array([True, True, False, False])), ("fancy", [3, 1])])
+
+                                def f(t=t, ix=ix, v=v):
+                                    t[ix] = v
+                                self._dd_case("item-assignment", ["datadep", "setitem", name, iname, aunit, dclass, vdt, tdt, lay, pol], f, t, dclass, pol)
+                    elif kind == "method":
+                        call = DD_METHODS[name]
+                        data_in_target = name in ("sort", "partition", "round-out") or r.random() < 0.3
+                        for tdt in sub(["f8", "f4", "i8", "i4", "i1"], 2):
+                            aunit = r.choice(["km", "degC", "dimensionless", "3*km"])
+                            comm = UNITS[aunit][0]
+                            lay = r.choice(["own", "step", "col", "T"])
+                            tcls = dclass if data_in_target and DD.available(dclass, tdt) else "ordinary"
+                            pl = r.choice(DD.PLACEMENTS)
+                            t, hold = DD.operand(unyt, lambda n: DD.values(r, n, tdt, tcls, pl, DD.UFUNC_EDGES), aunit, tdt, lay)
+                            vdt = r.choice([d for d in ("f8", "f4", "i8") if DD.available(dclass, d)])
+                            v0 = DD.values(r, 1, vdt, dclass, "all", DD.UFUNC_EDGES)[0]
+                            v = r.choice([v0.item(), unyt.unyt_quantity(v0, comm), unyt.unyt_quantity(v0, aunit)])
+                            self._dd_case("method-in-place", ["datadep", "ndarray." + name, aunit, dclass, tcls, pl, vdt, tdt, lay], lambda: call(t, v), t, dclass, "default",
+                                          manual_op="ndarray." + name, inputs=[("value", v)])
 
     # ------------------------------------------------------------------ unary ufuncs
     def g_unary(self, items):
@@ -1808,7 +2109,8 @@ def extra(tier, seed, results):
             counters[k] = counters.get(k, 0) + v
         reached.update(rr.get("reached", []))
         cells.update(rr.get("cells", []))
-    sub = {"input": 0, "failed-target": 0, "outside": 0, "twin": 0, "rescaled-operand": 0, "spelled-operand": 0, "spelled-container": 0, "read-only-target": 0}
+    sub = {"input": 0, "failed-target": 0, "outside": 0, "twin": 0, "rescaled-operand": 0, "spelled-operand": 0, "spelled-container": 0, "read-only-target": 0,
+           "data-class-target": 0, "data-class-input": 0}
     grid = {"dtype": {}, "layout": {}, "position": {}, "outcome": {}}
     sgrid = {"family": {}, "route": {}, "partner": {}, "outcome": {}, "entry": {}}
     for c in cells:
@@ -1825,6 +2127,19 @@ def extra(tier, seed, results):
             p = c.split("|")
             for dim, v in (("dtype", p[3]), ("layout", p[4]), ("position", p[2]), ("outcome", p[5])):
                 grid[dim][v] = grid[dim].get(v, 0) + 1
+    # data-dependent faults: cells (data-class-target, op, family, data class, policy, outcome, how) / (data-class-input, op, path, family, data class, policy, outcome)
+    dgrid = {"family": {}, "class": {}, "policy": {}, "outcome": {}, "raised-by-exception": {}, "input-class": {}, "input-outcome": {}}
+    for c in cells:
+        p = c.split("|")
+        if p[0] == "data-class-target":
+            for dim, v in (("family", p[2]), ("class", p[3]), ("policy", p[4]), ("outcome", p[5])):
+                dgrid[dim][v] = dgrid[dim].get(v, 0) + 1
+            if p[5] == "raised":
+                k = p[4] + ":" + p[6]
+                dgrid["raised-by-exception"][k] = dgrid["raised-by-exception"].get(k, 0) + 1
+        elif p[0] == "data-class-input":
+            dgrid["input-class"][p[4]] = dgrid["input-class"].get(p[4], 0) + 1
+            dgrid["input-outcome"][p[6]] = dgrid["input-outcome"].get(p[6], 0) + 1
     fault_seen = {f: counters.get(f"fault:{f}:raised", 0) for f in FAULTS}
     fault_returned = {f: counters.get(f"fault:{f}:returned", 0) for f in FAULTS}
     failed_by_exc = {}
@@ -1848,7 +2163,8 @@ def extra(tier, seed, results):
         if p[0] == "read-only-target":
             ro_layouts[p[4]] = ro_layouts.get(p[4], 0) + 1
     ev = {"npcatalog_functions_driven": len(npcat), "read_only_target_calls": {k: v for k, v in counters.items() if k.startswith("rotarget:")},
-          "read_only_target_cells_by_layout": ro_layouts, "sub_monitor_cells": sub, "rescaled_operand_cells": grid, "spelled_operand_cells": sgrid,
+          "read_only_target_cells_by_layout": ro_layouts, "sub_monitor_cells": sub, "rescaled_operand_cells": grid, "spelled_operand_cells": sgrid, "data_class_cells": dgrid,
+          "data_class_calls": {k: v for k, v in counters.items() if k.startswith("datadep:")},
           "spelled_operand_calls": {k: v for k, v in counters.items() if k.startswith("spelled:")},
           "rescaled_operand_calls": {k: v for k, v in counters.items() if k.startswith("rescale:")}, "faults_raised": fault_seen, "faults_returned": fault_returned, "failed_target_cells_by_exception": failed_by_exc,
           "unreached": {"taps": unreached_taps, "ufuncs": unreached_ufuncs, "out_functions": unreached_funcs},
@@ -1877,6 +2193,12 @@ def extra(tier, seed, results):
     unseen = [f for f in ro_fams if not counters.get(f"rotarget:{f}:raised", 0)] + [x for x in RO_LAYOUTS if not ro_layouts.get(x, 0)]
     if unseen:
         raise core.Inconclusive("read-only targets: in-place call families / layouts never seen to fail on one: " + ",".join(unseen))
+    unseen = [f"family={f}" for f in DD.FAMILIES if not dgrid["family"].get(f, 0)] + [f"class={c}" for c in DD.DCLASSES if not dgrid["class"].get(c, 0)] + \
+        [f"policy={x}" for x in DD.POLICIES if not dgrid["policy"].get(x, 0)] + [f"outcome={x}" for x in ("returned", "raised") if not dgrid["outcome"].get(x, 0)] + \
+        [f"input-class={c}" for c in DD.DCLASSES if not dgrid["input-class"].get(c, 0)] + \
+        [f"calls:{f}" for f in DD.FAMILIES if not (counters.get(f"datadep:{f}:returned", 0) + counters.get(f"datadep:{f}:raised", 0))]
+    if unseen:
+        raise core.Inconclusive("data-dependent faults: the target of an in-place call was never judged for: " + ",".join(unseen))
     missing = [f for f, n in fault_seen.items() if n == 0]
     if missing:
         raise core.Inconclusive("injected fault kinds that never made a call raise: " + ",".join(missing))
